@@ -1,10 +1,12 @@
 use crate::runner::{run_prop, Opts};
 
 pub mod c05;
+pub mod c17;
 
 pub fn dispatch(id: &str, opts: &mut Opts) -> i32 {
     match id {
         "C05" => run_prop(&c05::C05, opts),
+        "C17" => run_prop(&c17::C17, opts),
         _ => {
             eprintln!("unknown property id {id}");
             2
